@@ -219,7 +219,9 @@ func (st *Transfer) sendFile(fileIndex int32, fl file) error {
 			if err == io.EOF {
 				break
 			}
-			return err
+			// Not a *os.PathError for SendFiles to skip the file on: part of
+			// its data is on the wire already.
+			return fmt.Errorf("reading %s: %v", fl.path, err)
 		}
 		chunk := buf[:n]
 		// chunk size (“rawtok” variable in openrsync)
@@ -242,7 +244,8 @@ func (st *Transfer) sendFile(fileIndex int32, fl file) error {
 
 	// whole file long checksum (16 bytes)
 	if err := eg.Wait(); err != nil {
-		return err
+		// See above: the file's data has been sent, it cannot be skipped.
+		return fmt.Errorf("checksumming %s: %v", fl.path, err)
 	}
 	sum := h.Sum(nil)
 	// st.logger.Printf("sum: %x (len = %d)", sum, len(sum))
